@@ -237,7 +237,10 @@ def wells_block(rng, impedance=None, laterals=None):
     return c
 
 
-def plant_block(rng, enduse, ptype):
+HOURLY_TEMPERATURE_FILE = os.path.join(os.path.dirname(os.path.abspath(__file__)), 'data', 'hourly_temperature.csv')
+
+
+def plant_block(rng, enduse, ptype, dh_option=None):
     c = [['End-Use Option', enduse], ['Power Plant Type', ptype],
          ['Circulation Pump Efficiency', _round(rng.uniform(0.5, 0.95), 3)],
          ['Utilization Factor', rng.choice([0.9, 1.0, 0.1, _round(rng.uniform(0.3, 1.0), 3)])],
@@ -252,11 +255,22 @@ def plant_block(rng, enduse, ptype):
     if enduse == 2 and ptype == 5:
         c.append(['Absorption Chiller COP', _round(rng.uniform(0.4, 1.3), 3)])
     if enduse == 2 and ptype == 7:
-        c += [['District Heating Demand Option', 1],
-              ['District Heating Demand File Name', 'Examples/cornell_heat_demand.csv'],
-              ['District Heating Demand Data Time Resolution', 1],
-              ['District Heating Demand Data Column Number', 2],
-              ['Peaking Fuel Cost Rate', _round(rng.uniform(0.01, 0.08), 3)],
+        if dh_option is None:
+            dh_option = 2 if rng.random() < 0.35 else 1
+        if dh_option == 2:
+            # demand derived from an hourly temperature file, the number of housing units and the U.S. census division
+            c += [['District Heating Demand Option', 2],
+                  ['Temperature File Name', HOURLY_TEMPERATURE_FILE],
+                  ['Temperature Data Column Number', 2],
+                  ['Number of Housing Units', draw_small_int(rng, 4000, 40000)],
+                  ['US Census Division', rng.randint(1, 9)],
+                  ['Constant Anchor Demand', _round(rng.uniform(0, 5), 3)]]
+        else:
+            c += [['District Heating Demand Option', 1],
+                  ['District Heating Demand File Name', 'Examples/cornell_heat_demand.csv'],
+                  ['District Heating Demand Data Time Resolution', 1],
+                  ['District Heating Demand Data Column Number', 2]]
+        c += [['Peaking Fuel Cost Rate', _round(rng.uniform(0.01, 0.08), 3)],
               ['Peaking Boiler Efficiency', _round(rng.uniform(0.6, 0.95), 3)],
               ['District Heating Piping Cost Rate', _round(rng.uniform(500, 2500), 4)]]
         r = rng.random()
